@@ -47,6 +47,24 @@ OPS = [
     (r' \+ 1\b', ' + 2'), (r' - 1\b', ' - 2'), (r' \+ 1\b', ''), (r' - 1\b', ''),
     (r'\b0\.\.', '1..'), (r'\.\.=', '..'),
 ]
+if os.environ.get('MUT_OPSET') == '2':
+    # second operator set: confusions between twin identifiers (block hash 1 / 2, short / long, start / end)
+    ROOT = '/verif/mutation2'
+    OPS = [
+        (r'\bblockhash1\b', 'blockhash2'), (r'\bblockhash2\b', 'blockhash1'),
+        (r'\blen_blockhash1\b', 'len_blockhash2'), (r'\blen_blockhash2\b', 'len_blockhash1'),
+        (r'\bblock_hash_1\b', 'block_hash_2'), (r'\bblock_hash_2\b', 'block_hash_1'),
+        (r'\bblock_hash_1_len\b', 'block_hash_2_len'), (r'\bblock_hash_2_len\b', 'block_hash_1_len'),
+        (r'\brle_block1\b', 'rle_block2'), (r'\brle_block2\b', 'rle_block1'),
+        (r'\bHALF_SIZE\b', 'FULL_SIZE'), (r'\bFULL_SIZE\b', 'HALF_SIZE'),
+        (r'\bbhidx_start\b', 'bhidx_end'), (r'\bbhidx_end\b', 'bhidx_start'),
+        (r'\bh_full\b', 'h_half'), (r'\bh_half\b', 'h_full'),
+        (r'\bbh_curr!\(\)', 'bh_next!()'), (r'\bbh_next!\(\)', 'bh_curr!()'),
+        (r'\bS1\b', 'S2'), (r'\bS2\b', 'S1'),
+        (r'\bh1\b', 'h2'), (r'\bh2\b', 'h3'), (r'\bh3\b', 'h1'),
+        (r'\blhs\b', 'rhs'), (r'\brhs\b', 'lhs'),
+        (r'\bself\.len\(\)', 'other.len() as u8'),
+    ]
 SKIP_LINE = re.compile(r'^\s*(//|#\[|#!\[|use |pub use |debug_assert|invariant!|const_assert|static_assert|\*|/\*)|debug_assert|invariant!|optionally_unsafe|cfg_if|grcov|macro_rules')
 DELETABLE = re.compile(r'^\s*[A-Za-z_\$][A-Za-z0-9_\.\$\[\]\(\)&\*: ]*\.(fill|reset|clear|copy_from_slice|clone_from_slice)\(.*\);\s*$|^\s*(self|\$self)\.[a-z_0-9\.]+ (=|\+=|-=) .*;\s*$')
 
